@@ -67,6 +67,42 @@ def shaped_design(name, W, R, wkind, rkind, extra):
   body = '\n'.join('    ' + l for l in L)
   return sc.STRUCT_SRC + f'\nclass {name}( Component ):\n  def construct( s ):\n{body}\n'
 
+def func_design(name, rng):
+  """writes and reads that happen inside @s.func helpers, 1..3 calls deep"""
+  d1, d2 = rng.randrange(1, 4), rng.randrange(1, 4)
+  L = ['s.in_ = InPort( 8 )', 's.w = Wire( 8 )', 's.v = Wire( 8 )', 's.out = OutPort( 8 )', 's.out2 = OutPort( 8 )']
+  L += ['@s.func', 'def wf0( x ):', '  s.w @= x + 1']
+  for k in range(1, d1): L += ['@s.func', f'def wf{k}( x ):', f'  wf{k-1}( x )']
+  L += ['@s.func', 'def rf0():', '  s.out2 @= s.v ^ 5']
+  for k in range(1, d2): L += ['@s.func', f'def rf{k}():', f'  rf{k-1}()']
+  L += ['@update', 'def up_wr():', f'  wf{d1-1}( s.in_ )', '@update', 'def up_rd():', '  s.out @= s.w',
+        '@update', 'def up_v():', '  s.v @= s.in_ + 3', '@update', 'def up_rf():', f'  rf{d2-1}()']
+  body = '\n'.join('    ' + l for l in L)
+  return sc.STRUCT_SRC + f'\nclass {name}( Component ):\n  def construct( s ):\n{body}\n'
+
+FMEM = """
+class FMem( Component ):
+  def construct( s ):
+    s.n = 0
+  @blocking
+  def read( s, addr ):
+    s.n += 1
+    return s.n & 0xff
+"""
+def fl_design(name, rng):
+  """update blocks that call blocking (FL) methods: they are wrapped in greenlets and the constraints must follow"""
+  ex = rng.random() < 0.7
+  L = ['s.mem = FMem()', 's.w = Wire( 8 )', 's.w2 = Wire( 8 )', 's.out = OutPort( 8 )', 's.out2 = OutPort( 8 )',
+       '@update_once', 'def up_1():', '  s.w @= s.mem.read( 1 )',
+       '@update_once', 'def up_2():', '  s.out @= s.w + s.mem.read( 2 )',
+       '@update_once', 'def up_3():', '  s.w2 @= s.mem.read( 3 )',
+       '@update', 'def up_4():', '  s.out2 @= s.w2 + 1',
+       '@update_once', 'def up_5():', '  s.mem.read( 2 )',
+       '@update_once', 'def up_6():', '  s.mem.read( 3 )']
+  if ex: L.append(rng.choice(['s.add_constraints( U(up_6) < U(up_5) )', 's.add_constraints( U(up_5) < U(up_6) )', 's.add_constraints( U(up_4) < U(up_6) )']))
+  body = '\n'.join('    ' + l for l in L)
+  return sc.STRUCT_SRC + FMEM + f'\nclass {name}( Component ):\n  def construct( s ):\n{body}\n'
+
 def graph_design(name, n, edges):
   L = [f's.t = [ Wire( 4 ) for _ in range({n}) ]', 's.i = InPort( 4 )']
   for k in range(n):
@@ -75,25 +111,57 @@ def graph_design(name, n, edges):
   body = '\n'.join('    ' + l for l in L)
   return sc.STRUCT_SRC + f'\nclass {name}( Component ):\n  def construct( s ):\n{body}\n'
 
-def check_orders(ctx, name, src, cls, variants, coq_cases, coq_meta, needs=None):
+def check_orders(ctx, name, src, cls, variants, coq_cases, coq_meta, needs=None, fl=False):
   fp = None; orders = []
   for sch, i in variants:
     try:
       top = sc.build(cls, sch, rng=random.Random(ctx.rng.randrange(1 << 30)), seed=i)
     except Exception as e:
+      if fl:   # not every pass group supports blocks that call blocking methods; that is outside C02
+        ctx.hist[f'fl-unsupported:{sch}'] = ctx.hist.get(f'fl-unsupported:{sch}', 0) + 1
+        continue
       ctx.violation(f'C02:build:{name}:{sch}:{type(e).__name__}', f'legal design {name} rejected by {sch}: {type(e).__name__}: {str(e)[:200]}',
                     {'design_source': src, 'scheduler': sch, 'traceback': traceback.format_exc()[-1500:]})
       continue
     fpl = sc.Footprints(top)
     if fp is None: fp = fpl
-    top.sim_reset()
-    tracer = sc.OrderTracer(top, fpl.comb)
-    o = tracer.run(top.sim_eval_combinational)
+    if fl:
+      o = sc.static_order(top, fpl)
+      if o is None: continue
+    else:
+      top.sim_reset()
+      tracer = sc.OrderTracer(top, fpl.comb)
+      o = tracer.run(top.sim_eval_combinational)
     orders.append((f'{sch}#{i}', o))
     ctx.count((name, sch, i), True, cls='sched:' + sch)
     # static completeness: every overlapping writer/reader pair must be ordered by pymtl3's constraint set
     if (sch, i) == variants[0]:
       E = set(fpl.edges); X = set(fpl.expl)
+      for (a, b) in X:
+        if (a, b) not in E:
+          ctx.violation(f'C02:explicit-dropped:{name}:{fpl.comb[a].__name__}:{fpl.comb[b].__name__}',
+                        f'design {name}: the explicit constraint U({fpl.comb[a].__name__}) < U({fpl.comb[b].__name__}) is not in the constraint set the schedulers use',
+                        {'design_source': src, 'before': fpl.comb[a].__name__, 'after': fpl.comb[b].__name__})
+      if not fl:
+        # writes that pymtl3's analysis did not attribute to the block (found by running the block alone)
+        dyn = sc.dynamic_writes(top, fpl, random.Random(ctx.rng.randrange(1 << 30)))
+        reach = {a: set() for a in range(len(fpl.comb))}
+        for (a, b) in E: reach[a].add(b)
+        changed = True
+        while changed:
+          changed = False
+          for a in reach:
+            new = (set().union(*[reach[b] for b in reach[a]]) - reach[a]) if reach[a] else set()
+            if new: reach[a] |= new; changed = True
+        for bw, bits in dyn.items():
+          a = fpl.cid[bw]
+          for c, bc in enumerate(fpl.comb):
+            if c == a: continue
+            hit = [(r, k) for (r, k) in bits if any(r == r2 and l2 <= k < h2 for (r2, l2, h2) in fpl.reads[bc])]
+            if hit and c not in reach[a] and (c, a) not in X:
+              ctx.violation(f'C02:unattributed-write:{name}:{bw.__name__}:{bc.__name__}',
+                            f'design {name}: block {bw.__name__} really writes bits {hit[:3]} (root id, bit) that {bc.__name__} reads, but the write is not attributed to it and nothing orders it before the reader',
+                            {'design_source': src, 'writer': bw.__name__, 'reader': bc.__name__, 'bits': hit[:8]})
       for a, ba in enumerate(fpl.comb):
         for b, bb in enumerate(fpl.comb):
           if a == b: continue
@@ -147,6 +215,20 @@ def run(ctx):
     g = sc.Gen(random.Random(rng.randrange(1 << 30)), f'R{j}', size=rng.choice(['medium', 'large'])).build()
     cls, _ = sc.load_source(ctx, g.source(), g.name)
     check_orders(ctx, g.name, g.source(), cls, variants, coq_cases, coq_meta)
+  # writes/reads through @s.func helpers; blocks calling blocking methods (greenlet-wrapped)
+  for j in range(6 if quick else 40):
+    src = func_design(f'FN{j}', rng)
+    cls, _ = sc.load_source(ctx, src, f'FN{j}')
+    check_orders(ctx, f'FN{j}', src, cls, variants, coq_cases, coq_meta)
+    ctx.hist['family:func'] = ctx.hist.get('family:func', 0) + 1
+  for j in range(6 if quick else 40):
+    src = fl_design(f'FL{j}', rng)
+    try:
+      cls, _ = sc.load_source(ctx, src, f'FL{j}')
+      check_orders(ctx, f'FL{j}', src, cls, [('simple', 0), ('simple', 1), ('simple', 2), ('forced', 0), ('forced', 1), ('dynamic', 0), ('heuristic', 0)], coq_cases, coq_meta, fl=True)
+      ctx.hist['family:blocking-method'] = ctx.hist.get('family:blocking-method', 0) + 1
+    except Exception as e:
+      ctx.violation(f'C02:fl-design-crash:{type(e).__name__}', f'FL design failed: {type(e).__name__}: {str(e)[:200]}', {'design_source': src, 'traceback': traceback.format_exc()[-1500:]})
   # pure constraint graphs
   for j in range(12 if quick else 120):
     n = rng.choice([5, 8, 13, 30, 60] if quick else [5, 8, 13, 30, 60, 120, 300])
